@@ -81,7 +81,7 @@ type WOpts struct {
 }
 
 var WireFeatures = []string{"bind", "bind-value-impl", "value", "ivalue", "struct", "struct-fields", "struct-value-consumer", "fieldsof", "fieldsof-value", "fieldsof-ptr",
-	"sets", "nested-sets", "inline-sets", "inline-sets-deep", "struct-unexported-field", "ext-alias-suffix", "ext-name-differs-from-path", "composite", "same-name-packages-across-files", "fieldsof-twice", "second-injector", "twin-types-in-same-named-packages", "value-ext-var", "struct-in-ext-package", "fieldsof-in-ext-package", "err", "args", "unused-arg", "multi-file", "ext", "bind-foreign-ctor", "bind-split-set", "multi-result"}
+	"sets", "nested-sets", "inline-sets", "inline-sets-deep", "struct-unexported-field", "ext-alias-suffix", "ext-name-differs-from-path", "composite", "same-name-packages-across-files", "fieldsof-twice", "second-injector", "twin-types-in-same-named-packages", "value-ext-var", "value-ext-nested-selector", "decoy-constructor-in-migrated-package", "struct-in-ext-package", "fieldsof-in-ext-package", "err", "args", "unused-arg", "multi-file", "ext", "bind-foreign-ctor", "bind-split-set", "multi-result"}
 
 func WAllowAll(except ...string) map[string]bool {
 	m := map[string]bool{}
@@ -339,6 +339,7 @@ func GenWire(rt *rapid.T, o WOpts) *WCase {
 				g.addUnit(WElem{Kind: "bind", Iface: it, Impl: res}, []TypeID{res}, []TypeID{it})
 				g.twinWant = append(g.twinWant, it)
 				g.w.AddFeature("bind")
+				g.decoy(p)
 			}
 		}
 	}
@@ -352,7 +353,14 @@ func GenWire(rt *rapid.T, o WOpts) *WCase {
 				key := g.extKey()
 				t := g.addType(Type{Kind: KStruct, Name: g.extTypeName(key), Pkg: key})
 				e := WElem{Kind: "value", Type: t, Var: "Val" + g.c.T(t).Name, VarPkg: key, H: uint32(rapid.IntRange(1, 1<<20).Draw(rt, "h"))}
-				g.c.Ext(key).Vars = append(g.c.Ext(key).Vars, ExtVar{Name: e.Var, Type: t, H: e.H})
+				xv := ExtVar{Name: e.Var, Type: t, H: e.H}
+				if rapid.Bool().Draw(rt, "extvalue-nested") {
+					// wire.Value(util.HoldEaa.V): the package is reached through a nested selector only
+					xv.Name, xv.Holder = "Hold"+g.c.T(t).Name, true
+					e.Var = xv.Name + ".V"
+					g.w.AddFeature("value-ext-nested-selector")
+				}
+				g.c.Ext(key).Vars = append(g.c.Ext(key).Vars, xv)
 				g.addUnit(e, nil, []TypeID{t})
 				g.w.AddFeature("value-ext-var")
 				continue
@@ -476,12 +484,24 @@ func (g *wgen) genProv(last bool) {
 			g.c.Provs = append(g.c.Provs, p)
 			g.addUnit(e, p.Params, prov)
 			g.addUnit(WElem{Kind: "bind", Iface: it, Impl: res}, []TypeID{res}, []TypeID{it})
+			g.decoy(p)
 			_ = ui
 			return
 		}
 	}
 	g.c.Provs = append(g.c.Provs, p)
 	g.addUnit(e, p.Params, prov)
+}
+
+// decoy declares, next to the wire configuration, an unrelated function with the name of an
+// external package's constructor whose result is bound to an interface.
+func (g *wgen) decoy(p Prov) {
+	if p.Form != "ext" || g.used["."+p.Name] || !rapid.Bool().Draw(g.rt, "decoy-ctor") {
+		return
+	}
+	g.used["."+p.Name] = true
+	g.c.PkgFuncs = append(g.c.PkgFuncs, p.Name)
+	g.w.AddFeature("decoy-constructor-in-migrated-package")
 }
 
 // genStruct: wire.Struct(new(S), fields...) assembles S from already supplied types.
